@@ -59,11 +59,17 @@ pub struct FutSpec {
     /// start with a held clone of the blocked task's waker)
     #[serde(default)]
     pub handoff: bool,
+    /// two `block_on` calls in a row on the same waker slot: the flag is a counter (each SetFlag
+    /// adds one), round r completes once it is >= r, and every round has a waker and a
+    /// notification flag of its own - a waker of round 1 that is woken (or put back) during round
+    /// 2 is stale
+    #[serde(default)]
+    pub two_rounds: bool,
 }
 
 impl FutSpec {
     pub fn text(&self) -> String {
-        format!("poll={:?} via={} wakers={:?}{}", self.poll, if self.atomic_waker { "AtomicWaker" } else { "slot" }, self.wakers, format!("{}{}{}", if self.prior { " prior-registration" } else { "" }, if self.relaxed { " relaxed-flag" } else { "" }, if self.handoff { " handoff" } else { "" }))
+        format!("poll={:?} via={} wakers={:?}{}", self.poll, if self.atomic_waker { "AtomicWaker" } else { "slot" }, self.wakers, format!("{}{}{}", if self.prior { " prior-registration" } else { "" }, if self.relaxed { " relaxed-flag" } else { "" }, if self.handoff { " handoff" } else { "" }) + if self.two_rounds { " two-rounds" } else { "" })
     }
 }
 
@@ -80,7 +86,9 @@ enum MainSt {
 
 #[derive(Clone, Debug, PartialEq, Eq, Hash)]
 struct FS {
-    flag: bool,
+    flag: u8,
+    /// waker id of the running round: 2 (first / only round) or 3 (second round)
+    cur: u8,
     /// 0 = empty, 1 = waker of the earlier (finished) task, 2 = waker of the blocked task
     slot: u8,
     notified: bool,
@@ -101,7 +109,7 @@ pub struct FutRef {
 }
 
 pub fn reference(spec: &FutSpec) -> FutRef {
-    let init = FS { flag: false, slot: if spec.prior { 1 } else { 0 }, notified: false, credit: true, yielded: false, main: MainSt::Polling(0), w: vec![0; spec.wakers.len()], held: vec![if spec.handoff { 2 } else { 0 }; spec.wakers.len()] };
+    let init = FS { flag: 0, cur: 2, slot: if spec.prior { 1 } else { 0 }, notified: false, credit: true, yielded: false, main: MainSt::Polling(0), w: vec![0; spec.wakers.len()], held: vec![if spec.handoff { 2 } else { 0 }; spec.wakers.len()] };
     let mut seen: HashSet<FS> = HashSet::new();
     let mut stack = vec![(init.clone(), vec![])];
     seen.insert(init);
@@ -114,12 +122,21 @@ pub fn reference(spec: &FutSpec) -> FutRef {
                 let mut n = s.clone();
                 match spec.poll[*i] {
                     PStep::Register => {
-                        n.slot = 2;
+                        n.slot = s.cur;
                         n.main = if i + 1 == spec.poll.len() { MainSt::Waiting } else { MainSt::Polling(i + 1) };
                     }
                     PStep::Check => {
-                        if s.flag {
-                            n.main = MainSt::Done;
+                        let need = if spec.two_rounds { s.cur - 1 } else { 1 };
+                        if s.flag >= need {
+                            if spec.two_rounds && s.cur == 2 {
+                                // the second block_on: a new task with a notification flag of its own
+                                n.cur = 3;
+                                n.notified = false;
+                                n.credit = true;
+                                n.main = MainSt::Polling(0);
+                            } else {
+                                n.main = MainSt::Done;
+                            }
                         } else {
                             n.main = if i + 1 == spec.poll.len() { MainSt::Waiting } else { MainSt::Polling(i + 1) };
                         }
@@ -160,15 +177,15 @@ pub fn reference(spec: &FutSpec) -> FutRef {
             n.w[t] += 1;
             let st = spec.wakers[t][s.w[t]];
             match st {
-                WStep::SetFlag => n.flag = true,
+                WStep::SetFlag => n.flag = if spec.two_rounds { (n.flag + 1).min(2) } else { 1 },
                 WStep::Wake => {
-                    if n.slot == 2 {
+                    if n.slot == n.cur {
                         n.notified = true;
                     }
                     n.slot = 0;
                 }
                 WStep::WakeByRef => {
-                    if n.slot == 2 {
+                    if n.slot == n.cur {
                         n.notified = true;
                     }
                     if spec.atomic_waker {
@@ -181,14 +198,14 @@ pub fn reference(spec: &FutSpec) -> FutRef {
                     }
                 }
                 WStep::WakeHeld => {
-                    if n.held[t] == 2 {
+                    if n.held[t] == n.cur {
                         n.notified = true;
                     }
                     n.held[t] = 0;
                 }
                 WStep::DropHeld => n.held[t] = 0,
                 WStep::WakeHeldByRef => {
-                    if n.held[t] == 2 {
+                    if n.held[t] == n.cur {
                         n.notified = true;
                     }
                 }
@@ -225,6 +242,8 @@ pub fn reference(spec: &FutSpec) -> FutRef {
 
 struct Shared {
     flag: loom::sync::atomic::AtomicBool,
+    /// two_rounds: the flag as a counter
+    count: loom::sync::atomic::AtomicUsize,
     slot: loom::sync::Mutex<Option<Waker>>,
     aw: loom::future::AtomicWaker,
     spec: FutSpec,
@@ -242,12 +261,13 @@ fn flag_orders(sh: &Shared) -> (std::sync::atomic::Ordering, std::sync::atomic::
     }
 }
 
-struct Fut(Arc<Shared>);
+struct Fut(Arc<Shared>, usize);
 
 impl Future for Fut {
     type Output = u32;
     fn poll(self: Pin<&mut Self>, cx: &mut Context<'_>) -> Poll<u32> {
         let sh = &self.0;
+        let need = self.1;
         let first = sh.polls.fetch_add(1, std::sync::atomic::Ordering::SeqCst) == 0;
         if first && sh.spec.handoff {
             let mut hs = sh.spawned.lock().unwrap_or_else(|e| e.into_inner());
@@ -267,7 +287,8 @@ impl Future for Fut {
                     }
                 }
                 PStep::Check => {
-                    if sh.flag.load(flag_orders(sh).1) {
+                    let up = if sh.spec.two_rounds { sh.count.load(flag_orders(sh).1) >= need } else { sh.flag.load(flag_orders(sh).1) };
+                    if up {
                         return Poll::Ready(7);
                     }
                 }
@@ -305,7 +326,13 @@ impl Future for RegisterOnce {
 fn waker_thread(sh: Arc<Shared>, script: Vec<WStep>, mut held: Option<Waker>) {
     for st in script {
         match st {
-            WStep::SetFlag => sh.flag.store(true, flag_orders(&sh).0),
+            WStep::SetFlag => {
+                if sh.spec.two_rounds {
+                    sh.count.fetch_add(1, std::sync::atomic::Ordering::AcqRel);
+                } else {
+                    sh.flag.store(true, flag_orders(&sh).0)
+                }
+            }
             WStep::Wake => {
                 if sh.spec.atomic_waker {
                     sh.aw.wake();
@@ -384,6 +411,7 @@ pub fn run_subject(spec: &FutSpec, iter_cap: usize) -> FutObs {
             }
             let sh = Arc::new(Shared {
                 flag: loom::sync::atomic::AtomicBool::new(false),
+                count: loom::sync::atomic::AtomicUsize::new(0),
                 slot: loom::sync::Mutex::new(None),
                 aw: loom::future::AtomicWaker::new(),
                 spec: spec2.clone(),
@@ -403,7 +431,11 @@ pub fn run_subject(spec: &FutSpec, iter_cap: usize) -> FutObs {
                     hs.push(loom::thread::spawn(move || waker_thread(s2, sc, None)));
                 }
             }
-            let out = loom::future::block_on(Fut(sh.clone()));
+            if spec2.two_rounds {
+                let out1 = loom::future::block_on(Fut(sh.clone(), 1));
+                assert_eq!(out1, 7);
+            }
+            let out = loom::future::block_on(Fut(sh.clone(), 2));
             hs.extend(sh.spawned.lock().unwrap_or_else(|e| e.into_inner()).drain(..));
             for h in hs {
                 h.join().unwrap();
@@ -471,7 +503,7 @@ pub fn eval(job: &Job) -> JobResult {
     // re-polls only after a wake (each wake step, each contended registration) or the one spurious return
     let yields = spec.poll.iter().filter(|s| matches!(s, PStep::YieldOnce(_))).count();
     let bound = 2 + yields + wake_steps * (1 + registers) + if spec.atomic_waker { wake_steps * registers * 2 } else { 0 };
-    if o.max_polls > bound {
+    if o.max_polls > bound && !spec.two_rounds {
         res.violations.push(Viol { kind: "too_many_polls".into(), detail: format!("{} > {}", o.max_polls, bound), expected: "re-polls only after a wake or the one spurious return".into(), observed: String::new(), witness: json!({}) });
     }
     res
@@ -534,7 +566,7 @@ pub fn specs(tier: &str) -> Vec<FutSpec> {
             let usable = |s: &Vec<WStep>| !aw || !s.contains(&CloneWaker);
             for s1 in scripts.iter().filter(|s| usable(s)) {
                 for prior in [false, true] {
-                    out.push(FutSpec { poll: p.clone(), atomic_waker: aw, wakers: vec![s1.clone()], prior, relaxed: false, handoff: false });
+                    out.push(FutSpec { poll: p.clone(), atomic_waker: aw, wakers: vec![s1.clone()], prior, relaxed: false, handoff: false, two_rounds: false });
                 }
             }
             // two waker threads: short scripts
@@ -544,8 +576,27 @@ pub fn specs(tier: &str) -> Vec<FutSpec> {
                         continue;
                     }
                     if s1.len() + s2.len() <= if tier == "quick" { 2 } else { 4 } {
-                        out.push(FutSpec { poll: p.clone(), atomic_waker: aw, wakers: vec![s1.clone(), s2.clone()], prior: false, relaxed: false, handoff: false });
+                        out.push(FutSpec { poll: p.clone(), atomic_waker: aw, wakers: vec![s1.clone(), s2.clone()], prior: false, relaxed: false, handoff: false, two_rounds: false });
                     }
+                }
+            }
+        }
+    }
+    // two rounds: two block_on calls in a row on the same slot; two producers (or one producer
+    // twice) that each raise the counter and wake whatever is registered
+    {
+        let wk = |by_ref: bool| if by_ref { WakeByRef } else { Wake };
+        let mut prods: Vec<Vec<Vec<WStep>>> = vec![];
+        for a in [false, true] {
+            for b in [false, true] {
+                prods.push(vec![vec![SetFlag, wk(a)], vec![SetFlag, wk(b)]]);
+                prods.push(vec![vec![SetFlag, wk(a), SetFlag, wk(b)]]);
+            }
+        }
+        for p in [vec![Register, Check], vec![Check, Register, Check], vec![Check, Register]] {
+            for aw in [false, true] {
+                for w in &prods {
+                    out.push(FutSpec { poll: p.clone(), atomic_waker: aw, wakers: w.clone(), prior: false, relaxed: false, handoff: false, two_rounds: true });
                 }
             }
         }
@@ -578,12 +629,12 @@ pub fn specs(tier: &str) -> Vec<FutSpec> {
     for p in [vec![Check], vec![Register, Check], vec![Check, Register, Check], vec![YieldOnce(true), Check], vec![YieldOnce(false), Check]] {
         for relaxed in [false, true] {
             for s1 in &hscripts {
-                out.push(FutSpec { poll: p.clone(), atomic_waker: false, wakers: vec![s1.clone()], prior: false, relaxed, handoff: true });
+                out.push(FutSpec { poll: p.clone(), atomic_waker: false, wakers: vec![s1.clone()], prior: false, relaxed, handoff: true, two_rounds: false });
             }
             for (i, s1) in hscripts.iter().enumerate() {
                 for s2 in hscripts.iter().skip(i) {
                     if s1.len() + s2.len() <= if tier == "quick" { 3 } else { 5 } && s1.len().max(s2.len()) <= 3 {
-                        out.push(FutSpec { poll: p.clone(), atomic_waker: false, wakers: vec![s1.clone(), s2.clone()], prior: false, relaxed, handoff: true });
+                        out.push(FutSpec { poll: p.clone(), atomic_waker: false, wakers: vec![s1.clone(), s2.clone()], prior: false, relaxed, handoff: true, two_rounds: false });
                     }
                 }
             }
